@@ -86,6 +86,20 @@ func VF_NodeMessage() {
 		sender = "stranger"
 	}
 	genuine := vf.Param("genuine") == "1"
+	// Param prime: the same process has just verified (and then refused, for its unknown event name) a GENUINE message of this
+	// sender; the message under test carries that message's signature over its own, different payload. Whatever the
+	// node remembers between messages, a signature vouches for the bytes it was made for only.
+	var primeSig []byte
+	if vf.Param("prime") == "1" {
+		if senderKind >= n || genuine {
+			vf.Stop()
+		}
+		_, ppriv := state_machines.VFKeyPair(senderKind)
+		pdata := []byte("prime-data")
+		primeSig = ed25519.Sign(ppriv, pdata)
+		_ = e.node.ProcessMessage(storage.Message{ID: "prime", DkgRoundID: "round", Event: "event_vf_unknown", Data: pdata,
+			Signature: primeSig, SenderAddr: sender})
+	}
 	var sig []byte
 	if genuine {
 		// genuinely signed by the sender's own registered key (participants only)
@@ -94,10 +108,15 @@ func VF_NodeMessage() {
 		}
 		_, priv := state_machines.VFKeyPair(senderKind)
 		sig = ed25519.Sign(priv, data)
+	} else if primeSig != nil {
+		sig = primeSig
 	} else {
 		sig = vf.OpaqueBytes("msg.sig")
 	}
 	roundKind := vf.Choose("round", 4)
+	if primeSig != nil && roundKind != 0 {
+		vf.Stop()
+	}
 	if roundKind != 0 && senderKind != 0 {
 		vf.Stop() // other / unseen round ids are explored with one sender only (bound, stated in the evidence)
 	}
